@@ -247,6 +247,10 @@ func (s *PanServer) handle(w http.ResponseWriter, r *http.Request) {
 			xmlResp(w, `<response status="success"><result><enabled>yes</enabled><group><mode>`)
 		case !m.HAEnabled:
 			xmlResp(w, `<response status="success"><result><enabled>no</enabled></result></response>`)
+		case m.Mode == "-":
+			// no <mode> element at all
+			xmlResp(w, `<response status="success"><result><enabled>yes</enabled><group><local-info><state>`+m.State+
+				`</state></local-info></group></result></response>`)
 		default:
 			xmlResp(w, `<response status="success"><result><enabled>yes</enabled><group><mode>`+m.Mode+
 				`</mode><local-info><state>`+m.State+`</state></local-info></group></result></response>`)
